@@ -53,7 +53,7 @@ impl Property for C17 {
     fn budget(&self, tier: Tier) -> Budget {
         match tier {
             Tier::Quick => Budget {
-                seconds: 25,
+                seconds: 60,
                 max_cases: 40_000,
             },
             Tier::Thorough => Budget {
